@@ -13,7 +13,7 @@
    [exec_rules] = one record through all rules, [run] = p.execute of one block,
    [next_line] = nextLine, [do_getline] = the Getline* opcodes. *)
 From Verif Require Import Lib.Base Model.Input Proofs.Input Proofs.InputLift Proofs.InputHist Proofs.InputCtl
-  Proofs.InputMain Proofs.InputScript.
+  Proofs.InputMain Proofs.InputScript Proofs.InputRange.
 
 (* ------------------------------------------------------------------------------------------ *)
 (* main_input_order + assign_operands_timing.
@@ -73,7 +73,14 @@ Theorem C11_plan_unopenable : forall e name ops hd sin,
   blookup (fs e) name = None ->
   plan_ops e (name :: ops) hd sin = PBad name :: plan_ops e ops hd sin.
 Proof. exact plan_ops_nofile. Qed.
+(* stdin iff no file operand: only empty operands and assignments => the assignments, then standard input *)
+Theorem C11_stdin_iff_no_file_operand : forall e ops sin,
+  Forall (skipped_operand e) ops ->
+  exists assigns, Forall is_assign assigns /\
+    plan_ops e ops false sin = assigns ++ PFile b_dash :: map (PRec b_dash) sin.
+Proof. exact plan_ops_no_file_operand. Qed.
 Print Assumptions C11_plan_file.
+Print Assumptions C11_stdin_iff_no_file_operand.
 
 (* every single call of nextLine moves a prefix of the plan into the history, never needs more
    fuel than argc - idx, and leaves ARGV and ARGC alone *)
@@ -210,6 +217,19 @@ Theorem C11_range_rule :
                inr (fst (range_step (p1 (line s)) (p2 (line s)) f), snd (range_step (p1 (line s)) (p2 (line s)) f), u', s).
 Proof. exact eval_pat_range. Qed.
 Print Assumptions C11_range_rule.
+
+(* end to end: the program  "p1, p2"  (one range rule, no action) with side-effect-free patterns: if the
+   main loop reaches the end of input, it has printed exactly the records selected by range_select
+   (C11_range_spec: the segments) among the records [recs] nextLine handed out, in order *)
+Theorem C11_range_program_prints :
+  forall (U : Type) (step : U -> st -> req * U) (enter : blk -> U -> U) (e : env) (fuel : nat) (p1 p2 : record -> bool),
+    pure_pat U step enter e fuel (BPat 0 false) p1 -> pure_pat U step enter e fuel (BPat 0 true) p2 ->
+    forall n f u s u' s' fl',
+      main_loop U step enter e fuel n [mkRule PRange false] [f] u s = LCont u' s' fl' ->
+      exists recs, delivers s s' recs /\
+        out s' = rev (map OPrint (select (range_select p1 p2 f recs) recs)) ++ out s.
+Proof. exact range_program_prints. Qed.
+Print Assumptions C11_range_program_prints.
 
 (* ------------------------------------------------------------------------------------------ *)
 (* next / nextfile / exit *)
@@ -387,6 +407,20 @@ Example C11_ex_range :
     [[112]; [83]; [112]; [69]; [112]; [83; 69]; [112]]
   = [false; true; true; true; false; true; false].
 Proof. vm_compute. reflexivity. Qed.
+
+(* the program  /S/,/E/  as a script: runs to the end and prints the segments of file f1 = [a; b S] *)
+Definition ex_range_prog : sprog :=
+  mkProg [] [mkSRule (SPRange (mkPat [] (CHas 83)) (mkPat [] (CHas 69))) None] [] [].
+Example C11_ex_range_run :
+  match script_exec ex_env ex_range_prog 100 [[102; 49]] [] with
+  | FOk _ s => out s = [OPrint [98; 32; 83]]
+  | _ => False
+  end.
+Proof. vm_compute. reflexivity. Qed.
+(* its patterns are pure in the sense of C11_range_program_prints *)
+Example C11_ex_pure_pat :
+  pure_pat (list stmt) (sstep ex_range_prog) (senter ex_range_prog) ex_env 5 (BPat 0 false) (fun r => mem_byte 83 r).
+Proof. intros u s. exists []. reflexivity. Qed.
 
 (* assignment operand parsing: the guard of the partial theorem holds for "g0=x y" *)
 Example C11_ex_assign : parse_assign [103; 48; 61; 120; 32; 121] = Some ([103; 48], [120; 32; 121]).
